@@ -234,12 +234,18 @@ impl<'a> Planner<'a> {
         // Get IDs of values produced by the pruned plan which are either in the
         // originally requested set of outputs, or are inputs to steps of the
         // original plan that were pruned away.
-        let new_outputs: Vec<NodeId> = candidate_outputs
-            .into_iter()
-            .filter(|output| {
-                outputs.contains(output) || pruned_ops_resolved_inputs.contains(output)
-            })
-            .collect();
+        //
+        // A value can be both an input and an output of an operator in the
+        // pruned plan. It is only listed once, as the executor hands out each
+        // output value once.
+        let mut new_outputs: Vec<NodeId> = Vec::new();
+        for output in candidate_outputs {
+            if (outputs.contains(&output) || pruned_ops_resolved_inputs.contains(&output))
+                && !new_outputs.contains(&output)
+            {
+                new_outputs.push(output);
+            }
+        }
 
         (pruned_plan, new_outputs)
     }
